@@ -8,7 +8,18 @@ import (
 	"fmt"
 	"os"
 	"runtime/debug"
+	"syscall"
 )
+
+// cpuMillis is the process's user+system CPU time so far; maxRSSKiB its peak resident set.
+func cpuMillis() (int64, int64) {
+	var ru syscall.Rusage
+	if err := syscall.Getrusage(syscall.RUSAGE_SELF, &ru); err != nil {
+		return 0, 0
+	}
+	ms := ru.Utime.Sec*1000 + int64(ru.Utime.Usec)/1000 + ru.Stime.Sec*1000 + int64(ru.Stime.Usec)/1000
+	return ms, ru.Maxrss
+}
 
 // Job is one unit of work read from stdin (one JSON object per line).
 type Job struct {
@@ -92,14 +103,40 @@ func Main(modes map[string]Mode) {
 			fmt.Fprintln(os.Stderr, "bad job:", err)
 			os.Exit(2)
 		}
+		c0, _ := cpuMillis()
 		res := runJob(mode, &j)
+		c1, rss := cpuMillis()
 		res["id"] = j.ID
+		res["cpu_ms"] = c1 - c0
+		res["maxrss_kib"] = rss
+		if j.OptBool("sizes_only", false) {
+			// resource probing: the caller wants to know how much was produced, not what
+			for k, v := range res {
+				if k != "stack" {
+					res[k] = sizesOnly(v)
+				}
+			}
+		}
 		if err := enc.Encode(res); err != nil {
 			fmt.Fprintln(os.Stderr, "encode:", err)
 			os.Exit(2)
 		}
 		out.Flush()
 	}
+}
+
+func sizesOnly(v any) any {
+	switch x := v.(type) {
+	case string:
+		if len(x) > 4096 {
+			return map[string]any{"len": len(x)}
+		}
+	case map[string]any:
+		for k, e := range x {
+			x[k] = sizesOnly(e)
+		}
+	}
+	return v
 }
 
 func runJob(mode Mode, j *Job) (res map[string]any) {
